@@ -15,7 +15,7 @@ import copy
 from pprint import pformat
 
 from .. import core, impl
-from ..gen import Gen, Opts, module_text, RefCtx
+from ..gen import variant, Gen, Opts, module_text, RefCtx
 from .c17 import fingerprint
 
 CODECS = ['ber', 'der', 'per', 'uper', 'oer', 'jer', 'xer', 'gser']
@@ -35,7 +35,7 @@ def work(job):
         history = []
         for step in range(rng.randint(2, 6)):
             x = rng.random()
-            if x < 0.15:
+            if x < 0.15 or (step == 0 and x < 0.5):
                 d = eval(pformat(d))
                 history.append('eval(pformat(d))')
                 continue
@@ -265,8 +265,26 @@ def run(ctx):
         types = [('A', g.type()), ('B', g.type())]
         rc = RefCtx(rng, p_type=0.5, p_value=0.4, p_con_on_ref=0.3, con_kinds=('octs',))
         text = module_text(types, ctx=rc, split=rng.random() < 0.3, ext_implied=rng.random() < 0.2)
+        if i % 3 == 2:
+            # sibling types (same member names and shared referenced types, other constraints / qualifiers), written in the
+            # opposite of the alphabetical order that pformat gives the dictionary, without AUTOMATIC TAGS where possible
+            t = g.type()
+            sib = variant(g, t)
+            types = [('B', sib), ('A', t)] if rng.random() < 0.7 else [('A', t), ('B', sib)]
+            rc = RefCtx(rng, p_type=0.6, p_value=0.3, p_con_on_ref=0.5, con_kinds=('octs',))
+            plain = module_text(types)
+            untagged = not any(k in plain for k in ('CHOICE', 'SET'))
+            text = module_text(types, ctx=rc, tags='' if untagged and rng.random() < 0.8 else 'AUTOMATIC TAGS')
+            ctx.count('arrangement.siblings' + ('-untagged' if untagged else ''))
         probes = [(n, t, g.value(t)) for n, t in types for _ in range(2)]
         jobs.append((rng.getrandbits(32), text, probes))
+    # the scripted family of harness/aliasfam.py: member-cache aliasing depends on the ORDER in which assignments are compiled,
+    # and pformat sorts the dictionary — histories on these texts start with the serialisation more often
+    from .. import aliasfam
+    for i in range(ctx.n(80, 1200)):
+        fam = aliasfam.build(rng)
+        jobs.append((rng.getrandbits(32), fam['text'], fam['probes'][:10]))
+        ctx.count('arrangement.alias-family')
     n = 28
     parts = core.parallel_map(work, [jobs[k::n] for k in range(n)])
     core.merge(ctx, parts)
